@@ -205,7 +205,11 @@ def run_once():
 
             # if there is a task to process, do it
             if task:
-                taskManager.process_task(task)
+                try:
+                    taskManager.process_task(task)
+                except Exception as err:
+                    # like run(): log it and carry on with the tasks that are due
+                    run_once._exception("an error has occurred: %s", err)
 
             # check for deferred functions
             while deferredFns:
